@@ -106,6 +106,7 @@ const char * message_str[] = {
         "flush",
         "user_data",
         "fsr",
+        "fsr_omit",
         "annotation",
         "utc",
 };
